@@ -97,6 +97,9 @@ func stateInlineAnnotationTextPrefix(s *Scanner, c byte) state {
 		s.found(lexeme.InlineAnnotationEnd)
 		s.found(lexeme.NewLine)
 		s.step = s.returnToStep.Pop()
+		// The line that follows may begin with another annotation: with CR LF
+		// line ends that line begins after the LF.
+		s.skipLineFeed = c == '\r'
 
 		s.annotation = annotationNone
 		if s.isInsideMultiLineAnnotation() {
